@@ -61,7 +61,10 @@ type deferred struct {
 }
 
 type loopState struct {
-	variant *T
+	variant  *T
+	explicit bool        // the loop has its own modifies clause: checked at the back edge
+	targets  []modTarget // its targets, evaluated at loop entry
+	head     *Snapshot   // heaps at the loop head (after havoc)
 }
 
 type Frame struct {
@@ -97,17 +100,18 @@ func (s *Snapshot) Heap(name, sort string) T {
 func (s *Snapshot) AllocTerm() T { return s.alloc }
 
 type State struct {
-	c        *Ctx
-	frames   []*Frame
-	heap     map[string]T
-	epoch    int
-	alloc    T
-	cmds     []string
-	closures map[string]*Closure
-	snaps    map[string]*Ptr // snapshot slices of arrays embedded in objects: backing ref -> origin
-	dead     bool
-	done     bool
-	pathID   int
+	c          *Ctx
+	frames     []*Frame
+	heap       map[string]T
+	epoch      int
+	alloc      T
+	cmds       []string
+	closures   map[string]*Closure
+	snaps      map[string]*Ptr // snapshot slices of arrays embedded in objects: backing ref -> origin
+	dead       bool
+	done       bool
+	pathID     int
+	caseChoice map[string]int // alternatives chosen at "cases" clauses on this path
 }
 
 func (st *State) Heap(name, sort string) T {
@@ -136,6 +140,10 @@ func (st *State) clone() *State {
 	n.closures = make(map[string]*Closure, len(st.closures))
 	for k, v := range st.closures {
 		n.closures[k] = v
+	}
+	n.caseChoice = make(map[string]int, len(st.caseChoice))
+	for k, v := range st.caseChoice {
+		n.caseChoice[k] = v
 	}
 	n.snaps = make(map[string]*Ptr, len(st.snaps))
 	for k, v := range st.snaps {
@@ -325,20 +333,21 @@ type Obligation struct {
 }
 
 type Exec struct {
-	c        *Ctx
-	fn       *ssa.Function
-	key      string
-	contract *Contract
-	infos    map[*ssa.Function]*FuncInfo
-	obls     []*Obligation
-	nfresh   int
-	npaths   int
-	problems []string
-	assumed  map[string]string // assumed contracts used: key -> reason
-	bound    int
-	maxPaths int
-	want     func(name string, tags []string) bool
-	frameChk bool
+	c            *Ctx
+	fn           *ssa.Function
+	key          string
+	contract     *Contract
+	infos        map[*ssa.Function]*FuncInfo
+	obls         []*Obligation
+	nfresh       int
+	npaths       int
+	problems     []string
+	assumed      map[string]string // assumed contracts used: key -> reason
+	bound        int
+	maxPaths     int
+	want         func(name string, tags []string) bool
+	frameChk     bool
+	pendingForks []*State // alternative paths created by "cases" clauses
 }
 
 var splitGoals bool
@@ -956,6 +965,10 @@ func (ex *Exec) runAll(st *State) {
 			}
 			forks := ex.step(s)
 			work = append(work, forks...)
+			if len(ex.pendingForks) > 0 {
+				work = append(work, ex.pendingForks...)
+				ex.pendingForks = nil
+			}
 		}
 	}
 }
@@ -997,6 +1010,9 @@ func (ex *Exec) jump(st *State, fr *Frame, b *ssa.BasicBlock) {
 				ex.oblige(st, fnKey, fmt.Sprintf("dec@loop%d", li.Ordinal), clauseTags(spec.Decreases, fr.contract), goal, where, spec.Decreases.Src)
 			}
 		}
+		if ls.explicit {
+			ex.checkLoopFrame(st, fr, li, ls, where)
+		}
 		st.done = true
 		return
 	}
@@ -1007,8 +1023,8 @@ func (ex *Exec) jump(st *State, fr *Frame, b *ssa.BasicBlock) {
 			ex.oblige(st, fnKey, fmt.Sprintf("inv:%s@loop%d:entry", labelOr(inv, i), li.Ordinal), clauseTags(inv, fr.contract), ev.Bool(inv.E), where, inv.Src)
 		}
 	}
-	ex.havocLoop(st, fr, li, spec)
-	ls := &loopState{}
+	tg, explicit := ex.havocLoop(st, fr, li, spec)
+	ls := &loopState{targets: tg, explicit: explicit}
 	if spec != nil {
 		ev := ex.loopEnv(st, fr)
 		for _, inv := range spec.Invariants {
@@ -1020,6 +1036,7 @@ func (ex *Exec) jump(st *State, fr *Frame, b *ssa.BasicBlock) {
 			ls.variant = &d
 		}
 	}
+	ls.head = st.snapshot()
 	fr.active[b] = ls
 }
 
@@ -1108,7 +1125,7 @@ func (ex *Exec) localByName(st *State, fr *Frame, name string) (SV, bool) {
 }
 
 // havocLoop forgets everything the loop body may change.
-func (ex *Exec) havocLoop(st *State, fr *Frame, li *LoopInfo, spec *LoopSpec) {
+func (ex *Exec) havocLoop(st *State, fr *Frame, li *LoopInfo, spec *LoopSpec) (explicit []modTarget, isExplicit bool) {
 	heapAll := false
 	heaps := map[string]string{}
 	for b := range li.Body {
@@ -1142,9 +1159,10 @@ func (ex *Exec) havocLoop(st *State, fr *Frame, li *LoopInfo, spec *LoopSpec) {
 	if spec != nil && len(spec.Modifies) > 0 {
 		// explicit loop frame: only these locations change (checked at every store in the body)
 		ev := ex.loopEnv(st, fr)
+		tg := ex.modTargets(ev, spec.Modifies)
 		ex.applyModifies(st, ev, spec.Modifies)
 		st.alloc = ex.bumpAlloc(st)
-		return
+		return tg, true
 	}
 	if heapAll {
 		ex.havocAll(st)
@@ -1159,6 +1177,82 @@ func (ex *Exec) havocLoop(st *State, fr *Frame, li *LoopInfo, spec *LoopSpec) {
 		}
 	}
 	st.alloc = ex.bumpAlloc(st)
+	return nil, false
+}
+
+// checkLoopFrame: at a back edge of a loop with its own modifies clause, every location outside that clause
+// that existed at the loop head must hold the value it had at the loop head (the clause was used to keep
+// everything else across the havoc at the head, so it has to be true of every iteration that continues).
+func (ex *Exec) checkLoopFrame(st *State, fr *Frame, li *LoopInfo, ls *loopState, where string) {
+	fnKey := funcKey(fr.fn)
+	for _, t := range ls.targets {
+		if t.all {
+			return
+		}
+	}
+	tags := ex.funcTags(fr.contract)
+	if st.epoch != ls.head.epoch {
+		ex.oblige(st, fnKey, fmt.Sprintf("loopframe@loop%d", li.Ordinal), tags, False, where, "the loop body calls something that may modify anything, but the loop's modifies clause is not '*'")
+		return
+	}
+	names := map[string]bool{}
+	for n := range st.heap {
+		names[n] = true
+	}
+	for n := range ls.head.heap {
+		names[n] = true
+	}
+	var ns []string
+	for n := range names {
+		ns = append(ns, n)
+	}
+	sort.Strings(ns)
+	for _, n := range ns {
+		srt, ok := ex.c.heapSort(n)
+		if !ok {
+			continue
+		}
+		cur, prev := st.Heap(n, srt), ls.head.Heap(n, srt)
+		if cur.S == prev.S {
+			continue
+		}
+		whole := false
+		var refs []T
+		for _, t := range ls.targets {
+			if t.heap != n {
+				continue
+			}
+			if t.ref == nil {
+				whole = true
+				break
+			}
+			refs = append(refs, *t.ref)
+		}
+		if whole {
+			continue
+		}
+		ksort, _, isArr := arrayParts(srt)
+		if !isArr {
+			// a scalar global
+			ex.oblige(st, fnKey, fmt.Sprintf("loopframe@loop%d:%s", li.Ordinal, n), tags, Eq(cur, prev), where, "the loop body changes "+n+" which is not in the loop's modifies clause")
+			continue
+		}
+		ex.nfresh++
+		q := T{fmt.Sprintf("r!lf%d", ex.nfresh), ksort}
+		hyp := []T{}
+		if ksort == SInt && n[0] != 'G' && !strings.HasPrefix(n, "gh_") {
+			hyp = append(hyp, App("<", SBool, q, ls.head.alloc)) // objects allocated during the iteration are not constrained
+		}
+		for _, r := range refs {
+			hyp = append(hyp, Not(Eq(q, r)))
+		}
+		body := Eq(Select(cur, q), Select(prev, q))
+		if len(hyp) > 0 {
+			body = Implies(And(hyp...), body)
+		}
+		goal := T{fmt.Sprintf("(forall ((%s %s)) %s)", q.S, ksort, body.S), SBool}
+		ex.oblige(st, fnKey, fmt.Sprintf("loopframe@loop%d:%s", li.Ordinal, n), tags, goal, where, "the loop body changes "+n+" outside the loop's modifies clause")
+	}
 }
 
 func (ex *Exec) bumpAlloc(st *State) T {
@@ -1838,11 +1932,96 @@ func (ex *Exec) ret(st *State, fr *Frame, x *ssa.Return) {
 	fnKey := funcKey(fr.fn)
 	where := ex.pos(x.Pos())
 	if ct != nil {
+		// "at return: assert|hint ..." - like an ensures clause, but evaluated at every return instruction with
+		// the named locals of the function in scope (it.off, b.next, ...), results under their contract names.
+		// A hint is proved here and then serves as a lemma for the postconditions below.
+		if as := ct.Asserts["return"]; len(as) > 0 {
+			lev := ex.loopEnv(st, fr)
+			results := fr.fn.Signature.Results()
+			for i := 0; i < results.Len() && i < len(rt); i++ {
+				n := results.At(i).Name()
+				if i < len(ct.ResultNames) {
+					n = ct.ResultNames[i]
+				}
+				if n == "" || n == "_" {
+					n = fmt.Sprintf("r%d", i)
+				}
+				lev.vars[n] = SV{T: rt[i], Ty: goTy(ex.c, results.At(i).Type())}
+			}
+			for i, cl := range as {
+				var g T
+				if cl.Kind == "hint" {
+					ok := func() (ok bool) {
+						defer func() {
+							if r := recover(); r != nil {
+								if _, isSpec := r.(specErr); !isSpec {
+									panic(r)
+								}
+								ok = false
+							}
+						}()
+						g = lev.Bool(cl.E)
+						return true
+					}()
+					if !ok {
+						continue // names a local that is not live at this return (or was renamed): no lemma here
+					}
+				} else {
+					g = lev.Bool(cl.E)
+				}
+				ex.oblige(st, fnKey, "at(return):"+labelOr(cl, i), clauseTags(cl, ct), g, where, cl.Src)
+				if cl.Kind == "hint" {
+					st.assume(g)
+				}
+			}
+		}
 		ev := ex.contractEnv(st, fr.fn, ct, fr.args, rt, st, fr.entry)
 		for i, e := range ct.Ensures {
-			ex.oblige(st, fnKey, "ensures:"+labelOr(e, i), clauseTags(e, ct), ev.Bool(e.E), where, e.Src)
+			g := ev.Bool(e.E)
+			ex.oblige(st, fnKey, "ensures:"+labelOr(e, i), clauseTags(e, ct), g, where, e.Src)
+			if ct.Flags["cumulative"] {
+				// postconditions are proved in the order written; with this flag each one, once stated as an
+				// obligation of its own, serves as a lemma for the ones after it (on the same path)
+				st.assume(g)
+			}
 		}
 	}
 	ex.cover(st, fnKey, "cover:return", ex.funcTags(ct), where)
 	st.done = true
+}
+
+// pointeeType returns the static type of the location a symbolic pointer designates (nil if unknown).
+func (ex *Exec) pointeeType(p *Ptr) types.Type {
+	var t types.Type
+	path := p.Path
+	switch p.Kind {
+	case PCell, PBox:
+		t = p.Base
+	case PObj:
+		if len(path) == 0 {
+			return p.Base
+		}
+		si := ex.c.StructOf(p.Base)
+		if path[0].Index != nil {
+			return nil
+		}
+		t = si.Fields[path[0].Field].Go
+		path = path[1:]
+	case PArr:
+		if len(path) == 0 {
+			return nil
+		}
+		t = p.Base
+		path = path[1:]
+	default:
+		return nil
+	}
+	for _, s := range path {
+		if s.Index != nil {
+			t = s.ElemT
+		} else {
+			t = ex.c.StructOf(t).Fields[s.Field].Go
+		}
+	}
+	return t
 }
